@@ -61,6 +61,13 @@ CLAIMED["C18"] = ("tls", "5/C18, 4.10",
     "All interleavings of poll_ready (2 wakers), call with handshake script complete@t / fail@t / stall, poll / drop of call futures and clock ticks are enumerated by TLC for limits 1..3, up to 4-5 concurrent calls and timeouts of 2-3 ticks; an init-rooted path cover of every edge of the replayed graphs (3-4 concurrent calls) is executed on both acceptor services with handshake timeouts 0.1 / 1.5 / 5 s in virtual time, and the observed readiness answers, resolution variant and instant (1 ms granularity), wake-ups and number of unresolved calls are compared with the edge labels and validated by TLC; random walks with up to 5 concurrent calls are judged by TLC alone. The data-intact clause (payloads 0 B..64 KiB both ways) is a differential byte comparison by the driver recorded as echo observations, not a model-based claim.",
     "Trusts TLC, the path-cover script, Tokio's paused clock/timer wheel, counting wakers, rustls/aws-lc-rs and OpenSSL; handshakes in progress are measured as live call futures; bounded constants.")
 
+CLAIMED["C11"] = ("service", "5/C11, 4.7", 'TLA+/TLC explicit-state model checking of a denotational+operational combinator spec (CombTerms.tla, Combinators.tla); TLC-generated vectors replayed on the real crate (manual executor, type-erased scripted leaves); recorded traces judged by TLC in predicate mode and bound in strict mode (CombinatorsTrace.tla); NEG variant configs as vacuity guard',
+    "TLC checks exhaustively, for every combinator/factory term of depth <= 2 over scripted leaves (k <= 2 Pending polls, Ok/Err, all requests/configs of a small domain; depth 3 by seeded sampling), that the poll-level operational transcription of actix-service yields exactly the reference composition Eval, that second stages run only after/if the first succeeded, that mappers are applied once to the matching variant, that wrappers are transparent, and that each inner factory is built once with the prescribed config and the first init error wins. Every TLC vector is executed on the real generic combinators, and TLC evaluates the same predicates on recorded runs of the real code.",
+    "Trusts TLC and the harness's type-erasing adapter, scripted leaves and manual executor; one request per service instance; Then/pipeline are not public and not modelled.")
+CLAIMED["C12"] = ("service", "5/C12, 4.7", 'TLA+/TLC explicit-state model checking of a denotational+operational combinator spec (CombTerms.tla, Combinators.tla); TLC-generated vectors replayed on the real crate (manual executor, type-erased scripted leaves); recorded traces judged by TLC in predicate mode and bound in strict mode (CombinatorsTrace.tla); NEG variant configs as vacuity guard',
+    "Same model and vectors as C11: TLC checks exhaustively (depth <= 2, sampled depth 3) that combined readiness is the conjunction of the inner readiness polls, that readiness errors propagate mapped, that a Pending answer implies every still-pending inner service/future was polled with the fresh waker of that poll, that no inner future is polled after completion, that no stage is invoked twice and that Pending is answered only while an inner poll is pending. The same predicates are evaluated by TLC on runs recorded from the real combinators, with waker identity observed via will_wake.",
+    "Trusts TLC and the harness executor; readiness scripts are sticky; actual wake-ups are not observed (the property is stated over who holds the current waker).")
+
 NOT_YET = "check not built yet in this round; the specification for it is planned in DESIGN.md section 5"
 
 
